@@ -231,80 +231,95 @@ def leO : Option Abs → Abs → Bool
   | none, _ => true
   | some a, b => a.le b
 
-/-- abstract result: state on normal completion, state on abrupt completion
-(raised or returned), `none` = cannot happen -/
-abbrev Res := Option Abs × Option Abs
+/-- abstract result: state on normal completion (`n`), when an exception propagates (`e`),
+when a `return` propagates (`r`); `none` = cannot happen -/
+structure Res where
+  n : Option Abs
+  e : Option Abs
+  r : Option Abs
+  deriving Repr
+
+def Res.bot : Res := ⟨none, none, none⟩
+
+def Res.join (x y : Res) : Res := ⟨joinO x.n y.n, joinO x.e y.e, joinO x.r y.r⟩
+
+/-- the component that describes an outcome -/
+def Res.sel (x : Res) : Outcome → Option Abs
+  | .ok => x.n
+  | .raised => x.e
+  | .ret => x.r
+
+/-- `q` = result of a finaliser started after the protected block was left with outcome `oa`:
+completing normally the finaliser keeps `oa`, raising or returning it replaces it -/
+def Res.after (q : Res) : Outcome → Res
+  | .ok => q
+  | .raised => ⟨none, joinO q.n q.e, q.r⟩
+  | .ret => ⟨none, q.e, joinO q.n q.r⟩
 
 /-- apply a transfer function to a possibly unreachable state -/
 def onO (f : Abs → Res) : Option Abs → Res
-  | none => (none, none)
+  | none => Res.bot
   | some a => f a
 
 def ana : Stmt → Abs → Res
-  | .skip, a => (some a, none)
-  | .fault _, a => (some a, some a)
-  | .raise, a => (none, some a)
-  | .ret, a => (none, some a)
-  | .need _, a => (some a, some a)
-  | .save x v, a => (some (a.bind x v), none)
+  | .skip, a => ⟨some a, none, none⟩
+  | .fault _, a => ⟨some a, some a, none⟩
+  | .raise, a => ⟨none, some a, none⟩
+  | .ret, a => ⟨none, none, some a⟩
+  | .need _, a => ⟨some a, some a, none⟩
+  | .save x v, a => ⟨some (a.bind x v), none, none⟩
   | .load x v, a =>
     let b := a.bind x v
-    (some { b with isStr := x :: b.isStr }, some a)
+    ⟨some { b with isStr := x :: b.isStr }, some a, none⟩
   | .setNone x, a =>
     let b := a.forget x
-    (some { b with isNone := x :: b.isNone }, none)
-  | .kill x _, a => (some (a.forget x), none)
-  | .del v, a => (some (if a.origNone v then a.markClean v else a.markDirty v), some a)
-  | .pop v, a => (some (if a.origNone v then a.markClean v else a.markDirty v), none)
-  | .setExpr v _, a => (some (a.markDirty v), some a)
+    ⟨some { b with isNone := x :: b.isNone }, none, none⟩
+  | .kill x _, a => ⟨some (a.forget x), none, none⟩
+  | .del v, a => ⟨some (if a.origNone v then a.markClean v else a.markDirty v), some a, none⟩
+  | .pop v, a => ⟨some (if a.origNone v then a.markClean v else a.markDirty v), none, none⟩
+  | .setExpr v _, a => ⟨some (a.markDirty v), some a, none⟩
   | .setFrom v x, a =>
-    (some (if a.holds.contains (x, v) then a.markClean v else a.markDirty v),
-     if a.isStr.contains x then none else some a)
+    ⟨some (if a.holds.contains (x, v) then a.markClean v else a.markDirty v),
+     if a.isStr.contains x then none else some a, none⟩
   | .seq p q, a =>
     let r1 := ana p a
-    let r2 := onO (ana q) r1.1
-    (r2.1, joinO r1.2 r2.2)
-  | .choice _ p q, a =>
-    let r1 := ana p a
-    let r2 := ana q a
-    (joinO r1.1 r2.1, joinO r1.2 r2.2)
+    (Res.mk none r1.e r1.r).join (onO (ana q) r1.n)
+  | .choice _ p q, a => (ana p a).join (ana q a)
   | .ifNone x p q, a =>
-    let r1 := ana p { a with isNone := x :: a.isNone }
     -- not None: a string if x holds an entry value (those are None or strings), else unknown
-    let r2 := ana q (if a.holds.any (fun p => p.1 = x) then { a with isStr := x :: a.isStr } else a)
-    (joinO r1.1 r2.1, joinO r1.2 r2.2)
-  | .ifSet _ p q, a =>
-    let r1 := ana p a
-    let r2 := ana q a
-    (joinO r1.1 r2.1, joinO r1.2 r2.2)
+    (ana p { a with isNone := x :: a.isNone }).join
+      (ana q (if a.holds.any (fun p => p.1 = x) then { a with isStr := x :: a.isStr } else a))
+  | .ifSet _ p q, a => (ana p a).join (ana q a)
   | .loop _ body, a =>
     -- the state at the loop head is itself an invariant when the body re-establishes it;
     -- otherwise widen
     let r0 := ana body a
-    if leO r0.1 a then (some a, r0.2) else
+    if leO r0.n a then ⟨some a, r0.e, r0.r⟩ else
     let inv := a.widen (writes body) (assigns body)
-    (some inv, (ana body inv).2)
+    let rb := ana body inv
+    ⟨some inv, rb.e, rb.r⟩
   | .tryFinally p q, a =>
+    -- the finaliser runs after each way of leaving `p`; completing normally it keeps that way,
+    -- raising or returning it replaces it
     let r := ana p a
-    let rn := onO (ana q) r.1
-    let re := onO (ana q) r.2
-    (rn.1, joinO rn.2 (joinO re.1 re.2))
+    ((onO (ana q) r.n).after .ok).join
+      (((onO (ana q) r.e).after .raised).join ((onO (ana q) r.r).after .ret))
   | .tryExcept _ p h, a =>
     let r := ana p a
-    let rh := onO (ana h) r.2
-    (joinO r.1 rh.1, joinO r.2 rh.2)
+    r.join (onO (ana h) r.e)
   | .scope p, a =>
     let r := ana p a
-    (joinO r.1 r.2, r.2)
+    ⟨joinO r.n r.r, r.e, none⟩
 
 def cleanO : Option Abs → Bool
   | none => true
   | some a => a.dirty.isEmpty
 
-/-- the checker: `p` writes no variable outside `vs`, and on every normal and abrupt
-exit no variable is (possibly) different from its value on entry -/
+/-- the checker: `p` writes no variable outside `vs`, and on every exit (normal, exception,
+return) no variable is (possibly) different from its value on entry -/
 def restores (p : Stmt) (vs : List Var) : Bool :=
-  (writes p).all (vs.contains ·) && cleanO (ana p Abs.init).1 && cleanO (ana p Abs.init).2
+  (writes p).all (vs.contains ·) && cleanO (ana p Abs.init).n && cleanO (ana p Abs.init).e &&
+  cleanO (ana p Abs.init).r
 
 /-! ## rendering (used to tie the JSON form run by the driver to the Lean term in Gen/) -/
 
